@@ -61,6 +61,10 @@ pub fn generate(prop: &str, seed: u64, idx: u64, tier: Tier) -> Plan {
     if r.chance(25) {
         p.knobs.insert("ans_late_ms".into(), *r.pick(&[1i64, 40, 400, 3000, 9000]));
     }
+    // the two ends may run different SDP compatibility modes (direct RTP / SRTP modes)
+    if p.knob("mode", 0) != 0 && r.chance(20) {
+        p.knobs.insert("compat_mix".into(), 1);
+    }
     // how the data channels come about (only read by configurations that have one)
     p.knobs.insert("dc_inband".into(), *r.pick(&[0i64, 0, 1, 2, 2, 3]));
     p
@@ -100,7 +104,7 @@ pub async fn run(ctx: &Ctx) {
             })));
         }
     }
-    let fail = |what: String| ctx.violate("C10.connect", format!("{what} [mode={} mix={} bundle={} mux={} lite={} udpmux={} latch={} compat={} offerer={} sig_delay_ms={} ans_late_ms={} dc_inband={}]", k.mode, k.mix, k.bundle, k.mux, k.lite, k.udpmux, k.latch, k.compat, k.offerer, ctx.plan.knob("sig_delay_ms", 0), ctx.plan.knob("ans_late_ms", 0), ctx.plan.knob("dc_inband", 0)));
+    let fail = |what: String| ctx.violate("C10.connect", format!("{what} [mode={} mix={} bundle={} mux={} lite={} udpmux={} latch={} compat={} offerer={} sig_delay_ms={} ans_late_ms={} dc_inband={} compat_mix={}]", k.mode, k.mix, k.bundle, k.mux, k.lite, k.udpmux, k.latch, k.compat, k.offerer, ctx.plan.knob("sig_delay_ms", 0), ctx.plan.knob("ans_late_ms", 0), ctx.plan.knob("dc_inband", 0), ctx.plan.knob("compat_mix", 0)));
     {
         let (off, ans) = if k.offerer == 0 { (&mut a, &mut b) } else { (&mut b, &mut a) };
         if k.has_dc() {
